@@ -175,9 +175,10 @@ PROPS = {
             {"kind": "verus", "unit": "gcons"},
             {"kind": "verus", "unit": "gnth"},
             {"kind": "verus", "unit": "genchain"},
+            {"kind": "verus", "unit": "gwindows"},
         ],
         "unreached": [
-            "the adaptors SuccessorsUntil, Zip, Chain, Repeat, WithCount, Group, Windows, Product of XGenerator::_iter; that std's filter_map / map_while / map / scan apply the step closure to every element in order (documented meaning, trusted); laziness / look-ahead, re-iterability, the Chain arm of _iter (flat_map over the parts; XGenerator::chain's flattening is under contract), the consumers join / the reducing ones (to_array, len, last, get, nth are under contract from the statement after the downcast), and the adaptors written in the xray language",
+            "the adaptors SuccessorsUntil, Zip, Chain, Repeat, WithCount, Group, Product of XGenerator::_iter; that std's filter_map / map_while / map / scan apply the step closure to every element in order (documented meaning, trusted); laziness / look-ahead, re-iterability, the Chain arm of _iter (flat_map over the parts; XGenerator::chain's flattening is under contract), the consumers join / the reducing ones (to_array, len, last, get, nth are under contract from the statement after the downcast), and the adaptors written in the xray language",
         ],
         "assumptions": ["V-gstep: the evaluator as a deterministic function `apply`; predicates answer a Bool (type fact, C01); std's filter_map / map_while / map / scan apply the closure to each element in order",
                         "std::iter::Iterator::{skip, take} by their documented meaning on a sequence view (finite-prefix model of a stream)",
